@@ -70,6 +70,26 @@ type c06Row struct {
 
 var errC06DB = errors.New("verif: database down")
 
+// the query function PANICS (`db=2`: with an error value, `db=3`: with a non-error value): the panic is the user's
+// own and travels up to the caller of the entry point (printed `panicked`); what the property demands is that
+// nothing is cached by that operation and that the key stays readable afterwards (the barrier is released).
+var errC06Panicked = errors.New("verif: the query function panicked")
+
+const c06PanicText = "verif: query function panicked"
+
+func c06Guard(f func() error) (err error) {
+	defer func() {
+		if p := recover(); p != nil {
+			if p == any(errC06DB) || p == any(c06PanicText) {
+				err = errC06Panicked
+				return
+			}
+			panic(p)
+		}
+	}()
+	return f()
+}
+
 func c06Val(tok string) (any, string) {
 	// returns the Go value to hand to SetCache and the raw string for `raw`
 	switch {
@@ -94,6 +114,8 @@ func c06Err(err error) string {
 		return "ok"
 	case errors.Is(err, sql.ErrNoRows):
 		return "notfound"
+	case errors.Is(err, errC06Panicked):
+		return "panicked"
 	case errors.Is(err, errC06DB):
 		return "dberr"
 	case strings.Contains(err.Error(), cache.VerifC06Injected):
@@ -197,6 +219,14 @@ func TestVerifC06(t *testing.T) {
 			timex.VerifAdvance(20 * time.Second)
 			env.Jitter.SetJ(verifh.Atoi(c06Opt(op, "j", "500")))
 			dbfail := c06Opt(op, "db", "0") == "1"
+			pan := func() {
+				switch c06Opt(op, "db", "0") {
+				case "2":
+					panic(errC06DB)
+				case "3":
+					panic(c06PanicText)
+				}
+			}
 			// `nc=1`: the operation goes through the context-free wrapper of the entry point (QueryRow, Exec, DelCache, …)
 			nc := c06Opt(op, "nc", "0") == "1"
 			// `w=1`: the query reports an absent row with a WRAPPED not-found error (errors.Is semantics)
@@ -221,6 +251,7 @@ func TestVerifC06(t *testing.T) {
 				var v c06Row
 				q := func(ctx context.Context, conn sqlx.SqlConn, v any) error {
 					queries++
+					pan()
 					if dbfail {
 						return errC06DB
 					}
@@ -233,9 +264,11 @@ func TestVerifC06(t *testing.T) {
 				}
 				var err error
 				if nc {
-					err = cc.QueryRow(&v, key(op[1]), func(conn sqlx.SqlConn, v any) error { return q(ctx, conn, v) })
+					err = c06Guard(func() error {
+						return cc.QueryRow(&v, key(op[1]), func(conn sqlx.SqlConn, v any) error { return q(ctx, conn, v) })
+					})
 				} else {
-					err = cc.QueryRowCtx(ctx, &v, key(op[1]), q)
+					err = c06Guard(func() error { return cc.QueryRowCtx(ctx, &v, key(op[1]), q) })
 				}
 				res = isNF(c06Err(err), err)
 				if err == nil {
@@ -510,6 +543,7 @@ func TestVerifC06(t *testing.T) {
 				var v c06Row
 				iq := func(ctx context.Context, conn sqlx.SqlConn, v any) (any, error) {
 						queries++
+						pan()
 						if dbfail {
 							return nil, errC06DB
 						}
@@ -526,6 +560,7 @@ func TestVerifC06(t *testing.T) {
 					}
 				pq := func(ctx context.Context, conn sqlx.SqlConn, v, primary any) error {
 						queries++
+						pan()
 						if dbfail {
 							return errC06DB
 						}
@@ -553,11 +588,13 @@ func TestVerifC06(t *testing.T) {
 					}
 				var err error
 				if nc {
-					err = cc.QueryRowIndex(&v, key(op[1]), keyer,
-						func(conn sqlx.SqlConn, v any) (any, error) { return iq(ctx, conn, v) },
-						func(conn sqlx.SqlConn, v, primary any) error { return pq(ctx, conn, v, primary) })
+					err = c06Guard(func() error {
+						return cc.QueryRowIndex(&v, key(op[1]), keyer,
+							func(conn sqlx.SqlConn, v any) (any, error) { return iq(ctx, conn, v) },
+							func(conn sqlx.SqlConn, v, primary any) error { return pq(ctx, conn, v, primary) })
+					})
 				} else {
-					err = cc.QueryRowIndexCtx(ctx, &v, key(op[1]), keyer, iq, pq)
+					err = c06Guard(func() error { return cc.QueryRowIndexCtx(ctx, &v, key(op[1]), keyer, iq, pq) })
 				}
 				res = isNF(c06Err(err), err)
 				if err == nil {
@@ -779,6 +816,17 @@ func c06J(r *verifh.Rng) string {
 	}
 }
 
+// c06DBFaultP: c06DBFault plus the panicking query function (sequential reads only).
+func c06DBFaultP(r *verifh.Rng) string {
+	switch r.Intn(24) {
+	case 0:
+		return " db=2"
+	case 1:
+		return " db=3"
+	}
+	return c06DBFault(r)
+}
+
 func c06DBFault(r *verifh.Rng) string {
 	switch r.Intn(16) {
 	case 0, 1:
@@ -844,6 +892,10 @@ var c06NXScenario = verifh.Section{Cfg: "exp=20000 nf=3000 stale=report nodes=1 
 	"raw x1 j:4 50000", "qindex x1 c=01", "qindex x1 w=1", "qindex x1",
 	"exec - put:2:5:2", "raw p2 j:1 100000", "take p2 c=01 j=500", "take p2",
 	"raw x2 j:2 100000", "qindex x2 c=01", "qindex x2", "exec p2,x2 rm:2", "set p2 r:2:5:2", "take p2", "del p2", "take p2 w=1", "qindex x2 w=1",
+	// the query function panics (error value / non-error value; through the Ctx form and the context-free wrapper;
+	// index query and primary query): nothing is cached, the key stays readable, also for concurrent readers
+	"exec p3,x3 put:3:30:3", "take p3 db=2", "take p3 j=0", "del p3", "take p3 db=3 nc=1", "ctake p3 n=3", "del p3,x3",
+	"qindex x3 db=2", "qindex x3 j=1000", "del p3", "qindex x3 db=3 nc=1", "qindex x3", "take p4 db=2", "take p4 db=3", "take p4", "cmix p3+p4 n=4 chain=1 gmp=1",
 }}
 
 // several CachedConn over the same servers, replayed on every run: what one instance loads the others serve
@@ -978,9 +1030,9 @@ func c06Gen(r *verifh.Rng) []verifh.Section {
 		for len(ops) < nops {
 			switch x := r.Intn(100); {
 			case x < 26:
-				ops = append(ops, fmt.Sprintf("take p%d%s%s%s", pkey(), c06J(r), c06Mask(r, 3), c06DBFault(r))+iv())
+				ops = append(ops, fmt.Sprintf("take p%d%s%s%s", pkey(), c06J(r), c06Mask(r, 3), c06DBFaultP(r))+iv())
 			case x < 40:
-				ops = append(ops, fmt.Sprintf("qindex x%d%s%s%s", pkey(), c06J(r), c06Mask(r, 4), c06DBFault(r))+iv())
+				ops = append(ops, fmt.Sprintf("qindex x%d%s%s%s", pkey(), c06J(r), c06Mask(r, 4), c06DBFaultP(r))+iv())
 			case x < 43:
 				ops = append(ops, fmt.Sprintf("ctake p%d n=%d%s%s", pkey(), r.Range(2, 6), c06J(r), c06DBFault(r))+ivs())
 			case x < 47:
